@@ -579,7 +579,7 @@ def check_C16(ctx, rep):
     rep.clauses_decided.append('parse_X(print_X(A)) equals A field by field on model DFAs, NFAs, PDAs and TMs (empty accepting set, empty alphabet, states without transitions, several labels per edge, names that are prefixes of one another, states named like keywords of the other kinds, declared symbols that no transition uses, epsilon / blank symbols other than the default) under two iteration orders of sets (M35, finite model; the line parser, the builders and the class invariants are interpreted by the analyser, re functions on model strings are the analyser\'s own)')
     rep.clauses_decided += ['keywords (R-IO a)', 'label layout roles and arity (R-IO b)', 'operator tokens, precedence order, symbol class (R-IO d)',
                             'CFG epsilon spelling and rule layout (R-IO e)', 'generated parsers match the .g4 files (R-IO f)', 'declared-versus-empty (R-BUILD)']
-    rep.not_decided += ['field-by-field equality of the re-parsed object']
+    rep.not_decided += ['field-by-field equality of the re-parsed object beyond the model automata and grammars of M35 / M39']
     iorules.check_declared_lines_unconditional(ctx, rep)
     if iorules.check_keywords(ctx, rep) < 20:
         raise AnalysisError('fewer than 20 printed keywords / builder keys found')
